@@ -18,8 +18,13 @@ func init() {
 	props["C04"] = runC04
 }
 
-func bzWrite(data []byte, level int, parts [][]byte) ([]byte, error, int64, int64) {
+func bzWrite(data []byte, level int, parts [][]byte) (sink []byte, err error, in, out int64) {
 	var bb bytes.Buffer
+	defer func() {
+		if p := recover(); p != nil {
+			sink, err = bb.Bytes(), fmt.Errorf("panic: %v", p)
+		}
+	}()
 	zw, err := bzip2.NewWriter(&bb, &bzip2.WriterConfig{Level: level})
 	if err != nil {
 		return nil, err, 0, 0
@@ -245,7 +250,7 @@ func runC04(r *vhlib.Run) {
 	}
 	for _, lv := range levels {
 		lim := lv * 100000
-		offs := []int{-6, -4, -3, -2, -1, 0, 1, 2, 5}
+		offs := []int{-8, -7, -6, -5, -4, -3, -2, -1, 0, 1, 2, 5}
 		for oi, off := range offs {
 			runLen := []int{1, 3, 4, 5, 255, 256, 259, 300}[rng.Intn(8)]
 			pre := make([]byte, lim+off)
@@ -257,10 +262,50 @@ func runC04(r *vhlib.Run) {
 			}
 			d := append(pre, bytes.Repeat([]byte{'z'}, runLen)...)
 			d = append(d, vhlib.RandBytes(rng, rng.Intn(100))...)
-			c04Check(r, d, lv, fmt.Sprintf("block-limit-level%d", lv), lv == 1 && (oi == 4 || !r.Quick()))
+			c04Check(r, d, lv, fmt.Sprintf("block-limit-level%d", lv), lv == 1 && (oi == 6 || !r.Quick()))
+			// Write boundaries (and zero-length writes) inside the run at the limit
+			base, _, _, _ := bzWrite(d, lv, nil)
+			for _, sp := range []int{1, 3, 4, 5, 6, runLen} {
+				if sp > runLen {
+					continue
+				}
+				cut := len(pre) + sp
+				for _, parts := range [][][]byte{{d[:cut], d[cut:]}, {d[:cut], nil, d[cut:]}, {d[:len(pre)], d[len(pre):cut], d[cut:]}} {
+					s2, err2, _, _ := bzWrite(d, lv, parts)
+					r.Evals++
+					if err2 != nil || !bytes.Equal(s2, base) {
+						r.Violate("split-dependent", fmt.Sprintf("level %d: %d-byte run of 'z' starting %d bytes before the block limit, Write boundary %d bytes into the run: %d vs %d output bytes (err=%v)", lv, runLen, -off, sp, len(s2), len(base), err2),
+							map[string]interface{}{"level": lv, "prefix_len": len(pre), "run_len": runLen, "split_in_run": sp, "kind": "block-limit-split"})
+					}
+				}
+			}
 		}
 	}
 	// multi-block input
 	c04Check(r, gen.Plain(rng, 250000), 1, "multi-block", !r.Quick())
+	// geometric byte distributions over 30-50 values: very skewed post-MTF symbol
+	// profiles, code lengths of 17-20 bits in large blocks
+	ngeo := 3
+	if !r.Quick() {
+		ngeo = 20
+	}
+	for i := 0; i < ngeo; i++ {
+		ratio := 1.4 + 0.1*float64(rng.Intn(5))
+		nsym := 30 + rng.Intn(21)
+		size := 300000 + rng.Intn(600000)
+		d := make([]byte, size)
+		for k := range d {
+			x := rng.Float64()
+			sidx := 0
+			p := (ratio - 1) / ratio
+			for sidx < nsym-1 && x > p {
+				x -= p
+				p /= ratio
+				sidx++
+			}
+			d[k] = byte(sidx * 5)
+		}
+		c04Check(r, d, 9, "geometric", false)
+	}
 	r.Sample(map[string]interface{}{"input": "6869", "level": 1, "sink": "425a68313141592653599a89b422000000010000602000219e82021772453850909a89b422"})
 }
